@@ -252,9 +252,36 @@ def one_fork_helper(F):
     return pred
 
 
+def canon_lists(sk):
+    """One spelling for a separated list: `X (sep X)*` written as a first element followed by a loop, or as a loop that parses an
+    element and then looks for the separator, consume the same token sequences.  A non-loop step that is immediately followed by
+    a run of loop steps containing the same step is folded into the run, and each run is put in a fixed order."""
+    out = []
+    sk = list(sk)
+    i = 0
+    while i < len(sk):
+        st = sk[i]
+        if len(st) > 2 and st[2] is True:
+            j = i
+            while j < len(sk) and len(sk[j]) > 2 and sk[j][2] is True:
+                j += 1
+            run_ = sk[i:j]
+            if out and len(out[-1]) > 2 and out[-1][2] is False and (out[-1][0], out[-1][1], True) in run_ and \
+                    any(x[0] in ("accept_next_token", "expect_next_token") for x in run_):
+                out.pop()
+            out += sorted(run_, key=repr)
+            i = j
+        else:
+            out.append(st)
+            i += 1
+    return out
+
+
 def same_parse(a, b, peers, F, inline, sa, sb):
     """ordered skeletons equal, or -- when only the layout of branch arms differs -- the sets of maximal step sequences"""
     if sa == sb:
+        return True
+    if canon_lists(sa) == canon_lists(sb):
         return True
     try:
         pa = grammar.skeleton_paths(a, peers, F, inline, RENAME)
